@@ -5,12 +5,21 @@
 //! whose synchronous / background verdicts are known, under a schedule that is fixed by the case:
 //! the cfg-guarded gate `crate::server::verif_gate` (hooks/c29_gate.patch) blocks every background
 //! analysis thread right after it starts and right before it publishes until this harness releases
-//! it, and lets the harness run chosen threads to completion inside the window between
-//! `thread::spawn` and the handler's own publish. No sleeps: every step waits for the gate's
+//! it, and lets the harness run chosen threads to completion inside the window between the
+//! handler's `analyze` and the handler's own publish. No sleeps: every step waits for the gate's
 //! `FINISHED` signal of the thread it released.
 //!
-//! Case line (also answered by the Lean protocol machine, `Model/LsProto.lean`):
-//! `ls29 <docs> <events> <lazy|eager>`
+//! The server is tied to the protocol machine WITH BOTH REPAIRS (findings F8 and F38 are repaired
+//! in server.rs: `publish_if_latest`, and `thread::spawn` after the handler's publish). The thread
+//! of an edit therefore does not exist yet inside that edit's window; a schedule that lists it
+//! there is driven as "directly after the handler returns", which is the same published sequence
+//! for the repaired machine (`Model/LsProtoFixed.lean`). On a server WITHOUT the F38 repair the
+//! thread does exist in the window, the gate runs it there, and the reply differs from the
+//! machine's (and fails the oracle).
+//!
+//! Case line (also answered by the Lean protocol machine, `Model/LsProtoFixed.lean`; `ls29` is
+//! accepted as a synonym so that old replay files still run):
+//! `ls29r <docs> <events> <lazy|eager>`
 //!   docs   = `<name>=<sync>/<async>,…` — catalogue name plus the DECLARED verdict signatures
 //!            (`-` = synchronous part succeeds / background analysis publishes nothing); the
 //!            implementation side only uses the names, the model side only the verdicts;
@@ -315,10 +324,24 @@ fn run_schedule(texts: &[&str], events: &[Ev], eager: bool) -> String {
                     break 'outer;
                 }
                 for t in &window {
-                    if *t >= tasks_after.len() || !gate_reached(tasks_after[*t], gate::FINISHED) {
+                    if *t >= tasks_after.len() {
                         // the own task was scheduled but the synchronous part failed: no such task
                         verdict = Some("ill-formed");
                         break 'outer;
+                    }
+                    if !gate_reached(tasks_after[*t], gate::FINISHED) {
+                        if *t < tasks.len() {
+                            // an older task that `main_window` did not run to completion
+                            verdict = Some("window-task-not-finished");
+                            break 'outer;
+                        }
+                        // the own task: the repaired server spawns it after the handler's publish,
+                        // so it was not there inside the window; it runs now, before anything else
+                        gate_release(tasks_after[*t], &[gate::STARTED, gate::BEFORE_PUBLISH]);
+                        if !gate_wait(tasks_after[*t], gate::FINISHED) {
+                            verdict = Some("timeout");
+                            break 'outer;
+                        }
                     }
                     finished[*t] = true;
                 }
@@ -376,7 +399,7 @@ fn run_schedule(texts: &[&str], events: &[Ev], eager: bool) -> String {
 
 pub fn run_case(w: &[&str]) -> Option<String> {
     match w {
-        ["ls29", docs, events, mode] => {
+        ["ls29r" | "ls29", docs, events, mode] => {
             let eager = match *mode {
                 "eager" => true,
                 "lazy" => false,
@@ -515,13 +538,13 @@ pub fn generate(seed: u64, thorough: bool) -> Vec<String> {
     // 0. the confirmed history of finding F8 and the minimal history of finding F38, then every
     //    catalogue document alone (pins the declared verdicts)
     let pair = ["notll", "clean"];
-    out.push(format!("ls29 {} o0,p,c1,p,f0,f1 lazy", docs_word(&pair)));
-    out.push(format!("ls29 {} o0,f0,p lazy", docs_word(&pair)));
+    out.push(format!("ls29r {} o0,p,c1,p,f0,f1 lazy", docs_word(&pair)));
+    out.push(format!("ls29r {} o0,f0,p lazy", docs_word(&pair)));
     for c in CATALOGUE.iter() {
         let names = [c.0];
         let tail = if c.1 == "-" { ",f0" } else { "" };
-        out.push(format!("ls29 {} o0,p{tail} lazy", docs_word(&names)));
-        out.push(format!("ls29 {} o0,p{tail} eager", docs_word(&names)));
+        out.push(format!("ls29r {} o0,p{tail} lazy", docs_word(&names)));
+        out.push(format!("ls29r {} o0,p{tail} eager", docs_word(&names)));
     }
     // 1. exhaustive: all document sequences of length <= 3 over four documents (one per verdict
     //    class) x all schedules, lazy and eager alternating with the case index
@@ -534,7 +557,7 @@ pub fn generate(seed: u64, thorough: bool) -> Vec<String> {
             for s in schedules(&ds, &sp, false) {
                 let s = if s.is_empty() { "-".to_string() } else { s };
                 let mode = if idx % 2 == 0 { "lazy" } else { "eager" };
-                out.push(format!("ls29 {dw} {s} {mode}"));
+                out.push(format!("ls29r {dw} {s} {mode}"));
                 idx += 1;
             }
         }
@@ -548,7 +571,7 @@ pub fn generate(seed: u64, thorough: bool) -> Vec<String> {
         for ds in all_doc_seqs(names.len(), n) {
             for s in schedules(&ds, &spn, own_only) {
                 let mode = if idx % 2 == 0 { "lazy" } else { "eager" };
-                out.push(format!("ls29 {dwn} {s} {mode}"));
+                out.push(format!("ls29r {dwn} {s} {mode}"));
                 idx += 1;
             }
         }
@@ -591,7 +614,7 @@ pub fn generate(seed: u64, thorough: bool) -> Vec<String> {
             evs.push(format!("f{}", unfinished.remove(k)));
         }
         let mode = if rng.chance(1, 2) { "lazy" } else { "eager" };
-        out.push(format!("ls29 {dwa} {} {mode}", evs.join(",")));
+        out.push(format!("ls29r {dwa} {} {mode}", evs.join(",")));
     }
     out
 }
@@ -617,7 +640,8 @@ fn probe() {
 /// `race <n>`: NOT part of the check (timing-dependent, reported as an observation only). Opens a
 /// document that is not LL(1) on `n` fresh ungated servers with `max_k = 1` and counts how often
 /// the background thread's error reached the client BEFORE the handler's empty list (finding F38
-/// happening by itself, without the gate).
+/// happening by itself, without the gate; impossible since the repair, and checks/c29.py treats a
+/// non-zero count as a violation).
 fn race(n: usize) {
     let text = catalogue_text("ll2").unwrap();
     let (mut early, mut late, mut missing) = (0usize, 0usize, 0usize);
@@ -643,6 +667,73 @@ fn race(n: usize) {
     println!("@@ race opens={n} error-after-ok={late} error-before-ok={early} other={missing}");
 }
 
+/// Number of child processes of `run` (override: `PV_C29_SHARDS`; 1 = answer in this process).
+const SHARDS: usize = 4;
+
+/// `run`: answers the cases of stdin in their order. The cases are independent (each one builds a
+/// fresh server) but the gate is process-wide, so one process can only run one case at a time;
+/// the cases are therefore dealt round-robin to `SHARDS` child processes (`run1`, the sequential
+/// loop) and the replies are put back in order. A child that dies leaves its later cases
+/// unanswered: the replies before the first unanswered case are printed and the exit code is 3.
+fn run_sharded() {
+    use std::io::{BufRead, Read};
+    use std::process::{Command, Stdio};
+    let n = std::env::var("PV_C29_SHARDS").ok().and_then(|s| s.parse().ok()).unwrap_or(SHARDS);
+    let exe = std::env::current_exe().ok();
+    if n <= 1 || exe.is_none() {
+        return run_lines(run_case);
+    }
+    let lines: Vec<String> = std::io::stdin().lock().lines().map(|l| l.unwrap()).collect();
+    let mut workers = vec![];
+    for k in 0..n {
+        let input: String = lines.iter().skip(k).step_by(n).map(|l| format!("{l}\n")).collect();
+        let mut child = Command::new(exe.as_ref().unwrap())
+            .args(["c29", "run1"])
+            .stdin(Stdio::piped())
+            .stdout(Stdio::piped())
+            .stderr(Stdio::null())
+            .spawn()
+            .expect("cannot start a shard");
+        let mut stdin = child.stdin.take().unwrap();
+        let mut stdout = child.stdout.take().unwrap();
+        let feeder = std::thread::spawn(move || {
+            let _ = stdin.write_all(input.as_bytes());
+        });
+        let reader = std::thread::spawn(move || {
+            let mut out = String::new();
+            let _ = stdout.read_to_string(&mut out);
+            out
+        });
+        workers.push((child, feeder, reader));
+    }
+    let mut replies: Vec<Vec<String>> = vec![];
+    for (mut child, feeder, reader) in workers {
+        let out = reader.join().unwrap_or_default();
+        let _ = feeder.join();
+        let _ = child.wait();
+        replies.push(out.lines().filter(|l| l.starts_with("@@ ")).map(|l| l.to_string()).collect());
+    }
+    let mut text = String::new();
+    let mut complete = true;
+    for i in 0..lines.len() {
+        match replies[i % n].get(i / n) {
+            Some(r) => {
+                text.push_str(r);
+                text.push('\n');
+            }
+            None => {
+                complete = false;
+                break;
+            }
+        }
+    }
+    std::io::stdout().write_all(text.as_bytes()).unwrap();
+    std::io::stdout().flush().unwrap();
+    if !complete {
+        std::process::exit(3);
+    }
+}
+
 pub fn cli(args: &[String]) {
     match args.first().map(|s| s.as_str()) {
         Some("gen") => {
@@ -656,7 +747,8 @@ pub fn cli(args: &[String]) {
             }
             std::io::stdout().write_all(s.as_bytes()).unwrap();
         }
-        Some("run") => run_lines(run_case),
+        Some("run") => run_sharded(),
+        Some("run1") => run_lines(run_case),
         Some("probe") => probe(),
         Some("race") => race(args.get(1).and_then(|s| s.parse().ok()).unwrap_or(1000)),
         _ => {
